@@ -326,7 +326,7 @@ class PlanModel:
         return [(a.conds, a.beta) for a in alts]
 
 
-def run_action(instrs, beta, out_table, next_ts_val):
+def run_action(instrs, beta, out_table, next_ts_val, unit_on_external=False):
     """Symbolically run the action program on one binding. -> (extra conds, out tuple | None)"""
     env = dict(beta)
     conds = []
@@ -353,6 +353,12 @@ def run_action(instrs, beta, out_table, next_ts_val):
                     env[ins["dst"]] = z3.FreshInt("outid")
             else:
                 raise ModelError("action writes table %r (only the Out table is modelled)" % ins["table"])
+        elif op == "ExternalWithFallback" and unit_on_external:
+            # check_facts: the action only reports "some binding exists" through a callback
+            if out is not None:
+                raise ModelError("action both writes Out and calls the check callback")
+            out = []
+            env[ins["dst"]] = z3.FreshInt("ext")
         elif op == "AssertEq":
             conds.append(ev(ins["l"]) == ev(ins["r"]))
         elif op == "AssertNe":
@@ -367,7 +373,7 @@ def plan_tuples(plan_rec, tables, out_table, next_ts_val, mode="dnf", cands=None
     pm = PlanModel(plan_rec["plan"], tables, mode, cands)
     res = []
     for conds, beta in pm.outputs():
-        ac, out = run_action(plan_rec["instrs"], beta, out_table, next_ts_val)
+        ac, out = run_action(plan_rec["instrs"], beta, out_table, next_ts_val, unit_on_external=(out_table is None))
         if out is None:
             raise ModelError("action does not write the Out table")
         res.append((z3.And(conds + ac) if (conds or ac) else z3.BoolVal(True), out))
